@@ -188,8 +188,55 @@ def chacha_queries():
     return qs
 
 
+def ghash_poly_queries():
+    qs = []
+    H = "src/hash/"
+    qs.append(Q("ghash-bmul32-kernel", "C12_ghash.c", defs=["-DWHAT=1", "-DKER=2"], unwind=40, backend="cadical",
+                desc="ghash_ctmul32.c bmul32(x,y) == low 32 bits of the carry-less product (bitwise reference), rev32 == bit reversal; all 2^64 operand pairs"))
+    qs.append(Q("ghash-bmul-kernel", "C12_ghash.c", defs=["-DWHAT=1", "-DKER=1"], unwind=40, backend="cadical", tier="thorough", timeout=900,
+                desc="ghash_ctmul.c bmul(x,y) == 64-bit carry-less product; all operand pairs"))
+    qs.append(Q("ghash-bmul64-kernel", "C12_ghash.c", defs=["-DWHAT=1", "-DKER=3"], unwind=70, backend="cadical", tier="thorough", timeout=900,
+                desc="ghash_ctmul64.c bmul64(x,y) == low 64 bits of the carry-less product, rev64; all operand pairs"))
+    G = {1: H + "ghash_ctmul.c", 2: H + "ghash_ctmul32.c", 3: H + "ghash_ctmul64.c"}
+    GN = {0: "ref", 1: "ctmul", 2: "ctmul32", 3: "ctmul64"}
+    for a, b in ((1, 2), (1, 3), (0, 2)):
+        qs.append(Q("ghash-block-%s-vs-%s" % (GN[a], GN[b]), "C12_ghash.c", units=[G[x] for x in (a, b) if x],
+                    defs=["-DWHAT=2", "-DIMPL_A=%d" % a, "-DIMPL_B=%d" % b], unwind=130, backend="cadical", tier="thorough", timeout=900,
+                    desc="GHASH one 16-byte block: %s == %s for every y, h, data" % (GN[a], GN[b])))
+    for a in (1, 2, 3):
+        qs.append(Q("ghash-structure-%s" % GN[a], "C12_ghash.c", units=[G[a]],
+                    defs=["-DWHAT=3", "-DIMPL_A=%d" % a, "-DLEN=21"], unwind=40, backend="cvc5",
+                    desc="br_ghash_%s: short final block (21 bytes) processed as zero-padded; ghash over 32 bytes == two 16-byte calls with y carried; zero-length call is a no-op; real multiplication code, every y, h, data" % GN[a]))
+    P = {1: [SC + "poly1305_ctmul.c"], 2: [SC + "poly1305_ctmul32.c"],
+         3: [SC + "poly1305_i15.c", "src/int/i15_decmod.c", "src/int/i15_add.c", "src/int/i15_montmul.c", "src/int/i15_sub.c", "src/int/i15_encode.c"]}
+    PN = {1: "ctmul", 2: "ctmul32", 3: "i15"}
+    qs.append(Q("poly1305-ctmul-vs-ctmul32-D0-A0", "C12_poly.c", units=P[1] + P[2] + ["src/codec/enc64le.c"],
+                defs=["-DPA=1", "-DPB=2", "-DDLEN=0", "-DALEN=0"], unwind=70, backend="cadical",
+                desc="br_poly1305_ctmul_run == br_poly1305_ctmul32_run, empty data and AAD (one footer block: 2^128 * r mod p + s), every key/nonce (r, s arbitrary via a toy ChaCha20 at the function-pointer seam)"))
+    qs.append(Q("poly1305-ctmul-vs-ctmul32-D16-A0", "C12_poly.c", units=P[1] + P[2] + ["src/codec/enc64le.c"],
+                defs=["-DPA=1", "-DPB=2", "-DDLEN=16", "-DALEN=0"], unwind=70, backend="cadical", tier="thorough", timeout=900,
+                desc="br_poly1305_ctmul_run == br_poly1305_ctmul32_run, one data block + footer, every key/nonce/data"))
+    qs.append(Q("poly1305-ctmul-vs-i15-D0-A0", "C12_poly.c", units=P[1] + P[3] + ["src/codec/enc64le.c"],
+                defs=["-DPA=1", "-DPB=3", "-DDLEN=0", "-DALEN=0"], unwind=70, backend="cadical", tier="thorough", timeout=900,
+                desc="br_poly1305_ctmul_run == br_poly1305_i15_run, empty data and AAD"))
+    return qs
+
+
+def cbcrt_queries():
+    qs = []
+    for impl in ("aes_big", "aes_small", "aes_ct", "aes_ct64"):
+        for be in ("kissat", "cadical", "z3"):
+            qs.append(Q("aes-cbc-roundtrip-%s-K16-B1-%s" % (impl, be), "C12_cbcrt.c",
+                        units=uniq(REAL_UNITS[impl] + [SC + impl + "_cbcenc.c", SC + impl + "_cbcdec.c"]),
+                        defs=["-DENC_T=br_%s_cbcenc_keys" % impl, "-DDEC_T=br_%s_cbcdec_keys" % impl, "-DENC_INIT=br_%s_cbcenc_init" % impl,
+                              "-DDEC_INIT=br_%s_cbcdec_init" % impl, "-DENC_RUN=br_%s_cbcenc_run" % impl, "-DDEC_RUN=br_%s_cbcdec_run" % impl,
+                              "-DKLEN=16", "-DNBLK=1"], unwind=125, tier="thorough", backend=be, timeout=300,
+                        desc="br_%s_cbcdec_run(br_%s_cbcenc_run(x)) == x, 1 block, real AES-128 core and key schedule, every key/IV/block" % (impl, impl)))
+    return qs
+
+
 def queries():
-    qs = comp_queries() + des_queries() + chacha_queries()
+    qs = comp_queries() + des_queries() + chacha_queries() + ghash_poly_queries() + cbcrt_queries()
     for impl in ("aes_big", "aes_small", "aes_ct", "aes_ct64"):
         for m in AES_MODES:
             length = 48 if m[3] != 3 else 53
